@@ -1,6 +1,8 @@
 package store
 
 import (
+	"strconv"
+
 	pbsubstreams "github.com/streamingfast/substreams/pb/sf/substreams/v1"
 	sym "github.com/streamingfast/substreams/zz_verifsym"
 )
@@ -137,7 +139,11 @@ func vSetFromStored(p int, st *vState, i int, stored []byte) {
 		sym.Unreachable("stored-value-tagged")
 		return
 	}
-	if vIsNumeric(p) {
+	if vIsFloat(p) {
+		f, err := strconv.ParseFloat(string(payload), 64)
+		sym.Assert(err == nil, "stored-value-parses")
+		st.fnum[i], st.isSet[i] = f, isSet
+	} else if vIsNumeric(p) {
 		n, err := parseI64(payload)
 		sym.Assert(err == nil, "stored-value-parses")
 		st.num[i], st.isSet[i] = n, isSet
